@@ -18,6 +18,8 @@ def inner(path):
     want = doc.get("violation") or {}
     if doc.get("scenario") == "snapshot-variants":
         return replay_snapshot_variants(doc, path)
+    if doc.get("scenario") == "golden-variants":
+        return replay_golden_variants(doc, path)
     if doc.get("scenario", "").startswith("cold"):
         from . import cold
         return cold.replay(doc, path)
@@ -63,6 +65,37 @@ def replay_snapshot_variants(doc, path):
         digs.append(r.stdout.strip())
     print("public data snapshot digests per variant:", digs)
     if len(set(digs)) > 1:
+        print("VIOLATION property=C20 replay=%s" % path)
+        return 1
+    print("not reproduced")
+    return 0
+
+
+def fresh_golden(req, flags, hashseed, order):
+    env = dict(os.environ)
+    env["PYTHONHASHSEED"] = str(hashseed)
+    env["PYTHONDONTWRITEBYTECODE"] = "1"
+    env["PYTHONPATH"] = VERIF + os.pathsep + env.get("PYTHONPATH", "")
+    code = ("import sys,json;from sim.server import Server;S=Server(import_order=%r);"
+            "print(json.dumps(S.golden_raw(json.loads(sys.stdin.read()))['outcome']))" % (order,))
+    r = subprocess.run([sys.executable] + list(flags) + ["-c", code], cwd=VERIF, env=env,
+                       input=json.dumps(req), capture_output=True, text=True)
+    if r.returncode != 0:
+        raise RuntimeError(r.stderr[-1500:])
+    return json.loads(r.stdout.strip().splitlines()[-1])
+
+
+def replay_golden_variants(doc, path):
+    from .server import SUBPACKAGES
+    srv = doc.get("server") or {}
+    order = srv.get("import_order") or SUBPACKAGES
+    a = fresh_golden(doc["request"], [], 0, SUBPACKAGES)
+    b = fresh_golden(doc["request"], ["-OO"], srv.get("hashseed", 1), order)
+    c = fresh_golden(doc["request"], ["-O"], 12345, list(reversed(order)))
+    print("the call evaluated alone in three freshly started interpreters:")
+    for name, o in (("default", a), ("-OO", b), ("-O", c)):
+        print("  %-8s %s" % (name, json.dumps(o)[:200]))
+    if not (a == b == c):
         print("VIOLATION property=C20 replay=%s" % path)
         return 1
     print("not reproduced")
